@@ -5,7 +5,7 @@
    Vocabulary (Rates/Lookup.v, transcribed from tax/regime_def.go and tax/combo.go):
      value d tags ext vals      RateDef.Value AFTER the proposed repair of defect #1 (inclusive start date)
      value_shipped ...          the same with the comparison as shipped (`Since.Before(date)`)
-     applies tags ext v         v's tag and extension filters admit the document
+     applies tags ext v         v's tag and extension filters let the document through
      since_key v                v's start date; None = "always" (no date, or not a valid civil date)
      sk_le a b                  start-date order, None = minus infinity;  sk_le (since_key v) (Some d)
                                 reads "v has started on or before d"
@@ -151,13 +151,6 @@ Print Assumptions published_dates_valid.
 
 (* ---- defect #1: the comparison as shipped (`rv.Since.Before(date)`) ---- *)
 
-(* ES VAT standard as shipped on the pinned tree *)
-Definition es_vat_standard : list ratevalue :=
-  [ mkValue (Some (mkDate 2012 9 1)) (mkPct 210 3) None [] [] false;
-    mkValue (Some (mkDate 2010 7 1)) (mkPct 180 3) None [] [] false;
-    mkValue (Some (mkDate 1995 1 1)) (mkPct 160 3) None [] [] false;
-    mkValue (Some (mkDate 1993 1 1)) (mkPct 150 3) None [] [] false ].
-
 (* With the shipped comparison a value is NOT in force on its start date: on 2012-09-01 the lookup
    answers 18 % (the previous value); on the first start date of the table it answers nothing. *)
 Theorem shipped_comparison_start_date_refuted :
@@ -166,16 +159,7 @@ Theorem shipped_comparison_start_date_refuted :
     value_shipped d [] [] vals <> Some v /\
     (exists w, value_shipped d [] [] vals = Some w /\ since_key w <> Some d /\ rv_percent w = mkPct 180 3) /\
     value_shipped (mkDate 1993 1 1) [] [] vals = None.
-Proof.
-  exists es_vat_standard, (mkDate 2012 9 1), (mkValue (Some (mkDate 2012 9 1)) (mkPct 210 3) None [] [] false).
-  split; [apply table_descending_sound; vm_compute; reflexivity|].
-  split; [left; reflexivity|].
-  split; [reflexivity|]. split; [reflexivity|].
-  split; [vm_compute; discriminate|].
-  split; [|reflexivity].
-  exists (mkValue (Some (mkDate 2010 7 1)) (mkPct 180 3) None [] [] false).
-  split; [reflexivity|]. split; [vm_compute; discriminate|reflexivity].
-Qed.
+Proof. exact shipped_comparison_refuted_witness. Qed.
 Print Assumptions shipped_comparison_start_date_refuted.
 
 (* ---- non-vacuity ---- *)
